@@ -33,13 +33,23 @@ deriving DecidableEq, Repr, Inhabited
 
 /-! ## Sender: one transfer (blockencoder.rs) -/
 
+/-- largest number of source symbols of a block the FEC library can code: K_max = 8192 of RFC 5053
+    (`raptor-code`), K'_max = 56403 of RFC 6330 (`raptorq`).  A larger block makes the encoder PANIC
+    (raptor-code common.rs:183, raptorq base.rs:137); `add_object` refuses such objects since /repo 29615e2. -/
+def kMax : Scheme → Nat
+  | .raptor => 8192
+  | .raptorq => 56403
+  | _ => 0
+
 /-- does `Block::new_from_buffer` fail for a block of `k` source symbols?  (`reed-solomon-erasure`
-    refuses 0 parity shards - D21; `raptor-code` cannot encode k = 2 or 3 - D23/D26.)  The error is swallowed by
-    `read_window` (`read_end = true`). -/
+    refuses 0 parity shards - D21; `raptor-code` cannot encode k = 2 or 3 - D23/D26; the error is swallowed by
+    `read_window`, `read_end = true`.  A Raptor / RaptorQ block above the library's K maximum does not
+    return an error but panics: it counts as failing too.) -/
 def blockFails (s : Scheme) (k p : Nat) : Bool :=
   match s with
   | .rs | .rsus => p == 0 || k == 0 || k + p > 256
-  | .raptor => k == 2 || k == 3
+  | .raptor => k == 2 || k == 3 || decide (k > kMax .raptor)
+  | .raptorq => decide (k > kMax .raptorq)
   | _ => false
 
 /-- number of shards `encode` returns for a block -/
@@ -165,6 +175,8 @@ structure ObjCfg where
   carousel : Bool
   noCache : Bool
   streamSrc : Bool := false
+  pktLen : Nat := 0        -- datagram length of the object's packets (the packet cache counts whole datagrams)
+  lastPktLen : Nat := 0    -- ... of the packet carrying the last source symbol of the last block (No-Code: shorter)
 deriving Repr
 
 structure FdtCfg where
@@ -212,11 +224,14 @@ structure Src where
   t : Nat               -- transfers begun so far
   rest : List Sym       -- what is left of the current transfer
 
-/-- listing of the `t`-th transfer (0-based): `is_last_transfer` = no carousel and t + 1 = max_transfer_count -/
+/-- listing of the `t`-th transfer (0-based): `is_last_transfer` = no carousel and t + 1 = max_transfer_count.
+    `max_transfer_count = 0` without carousel: `should_transfer_now` is true once, `is_last_transfer`
+    never (0 ≠ 0 + 1): ONE ordinary transfer, no close-object flag, then the object expires. -/
 def Src.listing (s : Src) (t : Nat) : Option (List Sym) :=
   if s.carousel then some s.tr
   else if t + 1 < s.transfers then some s.tr
   else if t + 1 = s.transfers then some s.trLast
+  else if s.transfers = 0 ∧ t = 0 then some s.tr
   else none
 
 /-- next packet of a source -/
@@ -299,6 +314,10 @@ structure RxCfg where
   receiveOnce : Bool
   maxSize : Nat          -- object_max_cache_size (default 10 MiB)
   maxLook : Nat := 4096  -- 2 * MAX_PREALLOCATED_BLOCKS
+  /-- byte limit of the packet cache (packets of an object whose OTI is not known yet); the code uses
+      `object_max_cache_size` for it too.  `none`: no limit (the configuration the lemmas are proved for;
+      `Lemmas/SessionCache.lean` transfers them to the limited receiver when the limit is not reached). -/
+  pktCap : Option Nat := none
 deriving Repr
 
 /-- per-object receiver (`ObjectReceiver` in state Receiving) -/
@@ -436,11 +455,29 @@ def ageStep (age : Option Nat) (lists : Bool) : Option Nat :=
 
 def rx0 : ORx := { otiKnown := false, attached := false, cache := [], written := 0, got := [] }
 
+/-- datagram length of the packet carrying symbol `s` -/
+def pktBytes (o : ObjCfg) (s : Sym) : Nat :=
+  if s.sbn + 1 == o.ks.size && s.esi + 1 == o.ks.getD s.sbn 0 then o.lastPktLen else o.pktLen
+
+/-- `cache_size`: datagram bytes held in the packet cache -/
+def cacheSum (o : ObjCfg) : List Sym → Nat
+  | [] => 0
+  | s :: t => pktBytes o s + cacheSum o t
+
+/-- objectreceiver.rs `cache`: `if self.cache_size >= self.max_size_allocated { Err("Pkt cache is full") }` -/
+def cacheFull (rc : RxCfg) (o : ObjCfg) (cache : List Sym) : Bool :=
+  match rc.pktCap with
+  | none => false
+  | some c => decide (cacheSum o cache ≥ c)
+
 /-- `ObjectReceiver::push` followed by `check_object_state` -/
 def pushObj (dec : (k p : Nat) → List Nat → Bool) (rc : RxCfg) (o : ObjCfg) (st : OState) (rx : ORx) (s : Sym) : OState :=
   -- set_oti_from_pkt (in-band FTI)
   let rx := if !rx.otiKnown && o.inbandFti then { rx with otiKnown := true } else rx
-  if !rx.otiKnown then finish o st { rx := { rx with cache := s :: rx.cache }, term := .receiving }
+  if !rx.otiKnown then
+    -- the packet cache is full: `error("Fail to push pkt to cache")`, the object is dropped
+    if cacheFull rc o rx.cache then finish o st { rx := rx, term := .error }
+    else finish o st { rx := { rx with cache := s :: rx.cache }, term := .receiving }
   else finish o st (pushSym dec rc o rx s)
 
 /-- `push_obj` once the completed-registry test has passed: find or create the object
@@ -517,7 +554,7 @@ def stepFdt (dec : (k p : Nat) → List Nat → Bool) (rc : RxCfg) (s : SessCfg)
   | some f =>
     -- the FDT's own allocation limit (1 MiB) does not bind: the per-block accounting of FDTs is not modelled
     fdtFinish st p.fdtId f
-      (pushSym dec { rc with maxSize := 1024 * 1024 } (fdtObj s f) (fdtLookup st p.fdtId)
+      (pushSym dec { rc with maxSize := 1024 * 1024, pktCap := none } (fdtObj s f) (fdtLookup st p.fdtId)
         { sbn := p.sbn, esi := p.esi, close := p.close })
 
 /-- the event sequence one object sees when the receiver is fed `ps` -/
@@ -566,10 +603,12 @@ def maxTransferLength (s : Scheme) (e b : Nat) : Nat :=
   if size > lenCap s then lenCap s else size
 
 /-- `Sender::add_object` (`FileDesc::new`) answers `Err`: transfer length above the scheme's maximum;
-    Reed-Solomon without parity symbol or with more than 256 symbols in a block (/repo 318df3e, d5e6485).
+    Reed-Solomon without parity symbol or with more than 256 symbols in a block (/repo 318df3e, d5e6485);
+    Raptor / RaptorQ with a source block above the code's K maximum (/repo 29615e2).
     `aLarge` = larger block size of the partition of `tl`. -/
 def refused (s : Scheme) (e b p tl aLarge : Nat) : Bool :=
   decide (tl > maxTransferLength s e b) ||
-  ((s == .rs || s == .rsus) && (p == 0 || decide (aLarge + p > 256)))
+  ((s == .rs || s == .rsus) && (p == 0 || decide (aLarge + p > 256))) ||
+  ((s == .raptor || s == .raptorq) && decide (aLarge > kMax s))
 
 end Flute.Session
